@@ -94,10 +94,10 @@ template <class G, class T> static void one (const char* ty, const char* lean, c
     setState (os, st);
     auto fl = os.flags (); auto pr = os.precision (); auto fi = os.fill ();
     os << a;
-    bool        kept = os.flags () == fl && os.precision () == pr && os.fill () == fi && os.width () == 0;
+    bool        kept = os.flags () == fl && os.precision () == pr && os.fill () == fi;
     std::string text = os.str ();
     std::vector<std::string> want;
-    bool hyg = true, stateOK = true;
+    bool hyg = true, stateOK = true, matState = true;
     const auto& rec = recorded ()[std::string (lean) + (st == 0 ? ".show" : st == 1 ? ".showFixed" : ".showSci")];
     if (rec.size () != ptrs.size ()) stateOK = false;
     for (size_t i = 0; i < ptrs.size (); ++i)
@@ -109,6 +109,17 @@ template <class G, class T> static void one (const char* ty, const char* lean, c
             // one-line types: the element is printed in the caller's state; matrices: in the state the operator sets
             if (rows == 1 && ((std::ios_base::fmtflags) rec[i].flags != o.flags () || rec[i].prec != (long) o.precision ())) stateOK = false;
             if (rec[i].node != (long) i) stateOK = false;
+            if (rows > 1)
+            {
+                // WHICH state the matrix operators print their elements in (ImathMatrix.h operator<<): the caller's flags with showpoint added, and
+                // scientific added unless the caller's stream is fixed; precision unchanged; field width precision + 5 (fixed) or + 8
+                const auto ff = std::ios_base::floatfield;
+                auto want = o.flags () | std::ios_base::showpoint;
+                if (!(o.flags () & std::ios_base::fixed)) want |= std::ios_base::scientific;
+                long ww = (long) o.precision () + ((o.flags () & std::ios_base::fixed) ? 5 : 8);
+                (void) ff;
+                if ((std::ios_base::fmtflags) rec[i].flags != want || rec[i].prec != (long) o.precision () || rec[i].w != ww) matState = false;
+            }
             o.flags ((std::ios_base::fmtflags) rec[i].flags);
             o.precision (rec[i].prec);
         }
@@ -123,6 +134,7 @@ template <class G, class T> static void one (const char* ty, const char* lean, c
     tokensSeen += (long) got.size ();
     std::string why;
     if (!stateOK) why = "the extracted text does not print slot i as the i-th element in the caller's stream state (vectors) / has the wrong number of elements";
+    else if (!matState) why = "a matrix element is not printed with the caller's flags + showpoint (+ scientific unless fixed), unchanged precision, width precision + 5 / + 8";
     else if (!hyg) why = "a component's own printed form is not a proper token";
     else if (got != want) why = got.size () != want.size () ? "token count differs from the number of components" : "a token differs from the component's own printed form";
     else if (!kept) why = "the stream's flags / precision / fill / width are not restored";
